@@ -58,6 +58,13 @@ def run(tier, seed, rng):
         hists.append([(True, [dict(variant=a, forge_mtime=True), dict(variant=b, forge_mtime=True), dict(variant=a, forge_mtime=True)])])
         hists.append([(True, [dict(variant=a, forge_mtime=True)]), (True, [dict(variant=b, forge_mtime=True)]), (True, [dict(variant=a, forge_mtime=True)])])
         hists.append([(True, [dict(variant=a, forge_mtime=True)]), (False, [dict(variant=b, forge_mtime=True)]), (True, [dict(variant=a, forge_mtime=True)])])
+    # the cached SOURCE is removed while its bytecode stays (a cleaned __pkts__/*.py with __pycache__ left behind): timestamp
+    # bytecode with the same size and the same (forged) time stamp, and unchecked-hash bytecode
+    for a, b in (('A', 'A4'), ('A4', 'A'), ('A', 'C'), ('Ale', 'A'), ('A', 'A')):
+        for how in ('plain', 'unchecked'):
+            for fg in (True, False):
+                hists.append([(True, [dict(variant=a, forge_mtime=fg), dict(variant=b, forge_mtime=fg, drop_source=how), dict(variant=a, forge_mtime=fg)])])
+                hists.append([(True, [dict(variant=a, forge_mtime=fg)]), (True, [dict(variant=b, forge_mtime=fg, drop_source=how)]), (False, [dict(variant=b, forge_mtime=fg)])])
     # random longer histories
     for _ in range(40 if tier == 'quick' else 3000):
         h = []
@@ -121,7 +128,7 @@ def run(tier, seed, rng):
     cid = {}
     for h, res in zip(hists, results):
         flat, obs = [], []
-        forged = any(s.get('forge_mtime') for _, steps in h for s in steps)
+        forged = any(s.get('forge_mtime') or s.get('drop_source') for _, steps in h for s in steps)
         for (bc, steps), (rc, o, log) in zip(h, res):
             dist['processes'] += 1
             if o is None:
@@ -136,7 +143,7 @@ def run(tier, seed, rng):
                 dist['rewrites' if rew else 'hits'] += 1
                 dist['forged'] += bool(st.get('forge_mtime'))
                 dist['generation_off'] += st['variant'] == 'Aoff'
-                if not cachelib.conforms(rec['ops']) and rec['ops']:
+                if not cachelib.conforms(rec['ops'], rec.get('noload', False)) and rec['ops']:
                     failures.append(dict(kind='oracle', sig='cache-trace', what=f"file operations {rec['ops']} are not a run of the protocol", history=h, step=st))
                 flat.append(st['variant'])
                 obs.append(rew)
